@@ -316,8 +316,8 @@ class C13World(World):
             log.add(kind)
         elif kind == "restart":
             self.save_bytes("ckpt", self.root.state_dict())
-            fresh = zoo.build(self.cfg["spec"], int(op["seed"]))
             try:
+                fresh = zoo.build(self.cfg["spec"], int(op["seed"]))
                 fresh.obj.load_state_dict(self.load_bytes("ckpt"), strict=True)
             except Exception as ex:   # noqa: BLE001
                 # e.g. an ActNorm whose first training batch had a wrong feature count re-shaped its own
